@@ -208,21 +208,25 @@ def _mk_cls(layout, base):
     ann['f%d' % i] = int
     if not (layout >> i) & 1:
       ns['f%d' % i] = struct.field(pytree_node=False, metadata=shared_meta)
-    elif base:
+    elif base == 1:
       ns['f%d' % i] = struct.field(pytree_node=True, metadata=shared_meta)
   ns['__annotations__'] = ann
-  if base:
+  if base == 1:
     return type('S', (struct.PyTreeNode,), ns)
+  if base == 2:
+    # slots=True makes dataclasses build a NEW class object
+    return struct.dataclass(type('S', (), ns), slots=True)
   return struct.dataclass(type('S', (), ns))
 
 
-_CLS = {(l, b): _mk_cls(l, b) for l in range(8) for b in (0, 1)}
+_CLS = {(l, b): _mk_cls(l, b) for l in range(8) for b in (0, 1, 2)}
 
 
 def struct_props(layout, base, a0, a1, a2, s0, s1, s2, r, nv):
   """frozen; replace changes exactly the named field on a new instance; leaves ==
   node fields; static fields travel in the treedef; tree_map rebuilds the class"""
-  cls = pick([_CLS[(l, base)] for l in range(8)], layout) if base in (0, 1) else None
+  base = pick([0, 1, 2], base)
+  cls = pick([_CLS[(l, base)] for l in range(8)], layout)
   vals = []
   for i, (a, s) in enumerate(((a0, s0), (a1, s1), (a2, s2))):
     node = (layout >> i) & 1
@@ -319,7 +323,7 @@ def obligations(tier):
          dict(pa=I(0, 5), pb=I(0, 5), v=I(-3, 3), w=I(-3, 3), nested=B()),
          timeout=300, funcs=F, bounds='3 keys, all insertion orders'),
       Ob('struct_dataclass', struct_props,
-         dict(layout=I(0, 7), base=I(0, 1), a0=I(-3, 3), a1=I(-3, 3), a2=I(-3, 3),
+         dict(layout=I(0, 7), base=I(0, 2), a0=I(-3, 3), a1=I(-3, 3), a2=I(-3, 3),
               s0=I(0, 1), s1=I(0, 1), s2=I(0, 1), r=I(0, 2), nv=I(20, 22)),
          split=('layout', 'base'), timeout=300, funcs=G,
          bounds='3 fields, every node/static layout, struct.dataclass and '
